@@ -76,6 +76,29 @@ pub fn run_case(c: &Case) {
     let _ = run_case_best(c);
 }
 
+/// a silent run with a node limit: does the engine need more than `cap` nodes for this depth with the cache neutralised?
+/// (used only to drop cases that are too heavy for a stream; nothing of the run is compared)
+fn heavier_than(fen: &str, depth: u8, cap: u64) -> bool {
+    let Some(board) = setup_board(fen, &[]) else {
+        return true;
+    };
+    println!("S calibration probe");
+    TRANSPOSITION_TABLE.write().unwrap().clear();
+    sv::CACHE_OFF.store(true, Ordering::Relaxed);
+    sv::STOP_AT_POLL.store(u64::MAX, Ordering::Relaxed);
+    *sv::RECORDER.lock().unwrap() = None;
+    let limits = SearchLimits::new().nodes(Some(cap)).depth(Some(depth));
+    let mut search = Search::new(&board, Some(limits));
+    let _ = std::panic::catch_unwind(std::panic::AssertUnwindSafe(|| {
+        search.search(&SimpleEvaluator, Some(depth));
+    }));
+    sv::STOP_AT_POLL.store(0, Ordering::Relaxed);
+    sv::CACHE_OFF.store(false, Ordering::Relaxed);
+    TRANSPOSITION_TABLE.write().unwrap().clear();
+    println!("X calibration-end");
+    search.get_nodes() >= cap
+}
+
 pub fn run_case_best(c: &Case) -> Option<Ply> {
     println!(
         "S fen=[{}] moves=[{}] depth={} nodes={} stop={} cache={}{}",
@@ -959,6 +982,11 @@ fn mate_mode(rng: &mut Rng, count: usize, maxdepth: u8, shard: usize, of: usize,
         if cache_off {
             // positions rich in forced mates of different lengths, cache neutralised: root score vs plain minimax (C11)
             for d in 2..=maxdepth.max(3) {
+                // a handful of queen-heavy positions need a hundred thousand quiescence nodes even at depth 2 or 3: minutes in the model, nothing new
+                if heavier_than(&fen, d, 30_000) {
+                    println!("# heavy case dropped: depth {d} [{fen}]");
+                    continue;
+                }
                 run_case(&Case { fen: fen.clone(), moves: vec![], depth: d, nodes: None, stop: 0, cache: "off", tag: String::new(), tc: NO_TC, vdiv: 0 });
             }
             continue;
